@@ -592,9 +592,11 @@ class ExtendedIndexedOperand(Operand):
                 elif additional.is_8_bit():
                     raw_post_byte |= 0x98
                     size += 1
+                    max_size = size
                 elif additional.is_16_bit():
                     raw_post_byte |= 0x99
                     size += 2
+                    max_size = size
                     additional = NumericValue(additional.int, size_hint=4)
                 else:
                     size += additional.byte_len()
@@ -725,9 +727,11 @@ class IndexedOperand(Operand):
                 elif additional.is_8_bit():
                     raw_post_byte |= 0x88
                     size += 1
+                    max_size = size
                 elif additional.is_16_bit():
                     raw_post_byte |= 0x89
                     size += 2
+                    max_size = size
                     additional = NumericValue(additional.int, size_hint=4)
                 else:
                     size += additional.byte_len()
